@@ -5,6 +5,7 @@
 import PcVerif.Model.Detect
 import PcVerif.Lemmas.StrLemmas
 import PcVerif.Lemmas.DetectOwn
+import PcVerif.Lemmas.DetectOwnScc
 namespace PcVerif.Props.C20
 open PcVerif PcVerif.Detect PcVerif.Str
 
@@ -154,5 +155,13 @@ example : Detect.NoMarker "see </TT> here".toList = False := by
 /-- non-vacuity: an ordinary line — with `<`, `&` and capital letters — meets the marker hypothesis -/
 example : Detect.NoMarker "Tom & <Jerry> WEB VTT".toList := by
   refine ⟨?_, ?_, ?_⟩ <;> decide
+
+/-- **C20 (own output, SCC).** the document the SCC writer produces — for EVERY caption set of rows of basic characters (at most
+    15 rows per caption), any times — is detected as SCC: its characters are those of the header, time codes, hexadecimal words,
+    tabs, blanks and line feeds, so neither `<` (DFXP, SAMI) nor `W` (`WEBVTT`) nor a leading `{` (MicroDVD) occurs, the first
+    line is no number (SRT), and it is the SCC header -/
+theorem detect_own_scc (caps : List (List Str × Rat × Rat)) (hok : ∀ c ∈ caps, c.1.length ≤ 15 ∧ ∀ l ∈ c.1, ∀ x ∈ l, SccW.Basic x) :
+    detectFormat (SccW.write caps) = .ok (some .scc) :=
+  SccW.detect_own_scc caps hok
 
 end PcVerif.Props.C20
